@@ -1,7 +1,7 @@
 #!/bin/bash
 # runs every check of MANIFEST.json (tier $1, default quick) with seed $2 (default 1), 4 at a time; prints one line per check
 T=${1:-quick}; S=${2:-1}
-cd /verif
+cd "$(dirname "$0")/.."
 ids=${IDS:-$(python3 -c "import json;print(' '.join(c['property_id'] for c in json.load(open('MANIFEST.json'))['checks']))")}
 mkdir -p /tmp/runall.$$
 for i in $ids; do echo $i; done | xargs -P ${PAR:-4} -I{} sh -c "VERIF_SEED=$S bin/check {} $T > /tmp/runall.$$/{}.out 2>/tmp/runall.$$/{}.err; echo {} rc=\$? \$(grep -E '^(OK|VIOLATION|INFRA)' /tmp/runall.$$/{}.out /tmp/runall.$$/{}.err | head -2 | cut -c1-160)"
